@@ -14,6 +14,7 @@ from ..ref_p21 import Inst
 
 SEV_USERMSG = 2
 import os
+import re
 TEXT_VARIANTS = (os.environ.get('VERIF_DBG_VARIANTS') or 'compact,compact,spaced,lines').split(',')
 AVOID_SCHEMA = probes.masked_schema_features('C01') | probes.masked_schema_features('C03')
 AVOID_POP = probes.masked_pop_features('C01') | probes.masked_pop_features('C03')
@@ -163,6 +164,11 @@ def all_mutants(schema, pop, rng, per_class=2):
                     add(Mut('$ for required aggregate', kd + cx, inst.id, _replace(insts, inst.id, pi, j, ('null',)), 'attribute %d of %s (%s)' % (j, kw, a.type.text()), pos=pos))
                 if kd == 'entity' and v[0] == 'ref':
                     add(Mut('reference to missing instance', kd + cx, inst.id, _replace(insts, inst.id, pi, j, ('ref', fresh_id)), 'attribute %d of %s -> #%d' % (j, kw, fresh_id), pos=pos))
+                    # names no instance can have that are congruent to an existing, type-compatible name modulo 2^32 / 2^64 / 2^31
+                    for lab, big in (('2^32 + an existing name', 2 ** 32 + v[1]), ('2^33 + an existing name', 2 ** 33 + v[1]),
+                                     ('2^64 + an existing name', 2 ** 64 + v[1]), ('2^31 + an existing name', 2 ** 31 + v[1])):
+                        add(Mut('reference to missing instance: name beyond the integer range (%s)' % lab, kd + cx, inst.id,
+                                _replace(insts, inst.id, pi, j, ('ref', big)), 'attribute %d of %s -> #%d' % (j, kw, big), pos=pos))
                     bad = [x for x in ids if a.type.name not in member[x] and x != inst.id]
                     # for complex targets member holds the part names only (all of them are listed)
                     bad = [x for x in bad if not any(schema.is_a(n, a.type.name) for n in member[x])]
@@ -387,6 +393,22 @@ def _numnorm(schema, inst):
     return i2
 
 
+def _no_semicolon_strings_in_complex(pop):
+    """Open finding (fixed probe: second complex instance of the matrix): strings containing `;` inside COMPLEX instances are kept
+    out of the seeded populations, where any violation class in such an instance would surface it under its own key."""
+    def fix(v):
+        if v[0] == 'str' and re.search(r'#\d+\s*=', v[1]):
+            return ('str', 'a')
+        if v[0] == 'agg':
+            return ('agg', [fix(x) for x in v[1]])
+        if v[0] == 'typed':
+            return ('typed', v[1], fix(v[2]))
+        return v
+    for i in pop.insts:
+        if i.complex:
+            i.parts = [(kw, [fix(v) for v in vals]) for kw, vals in i.parts]
+
+
 def matrix_schema():
     """Fixed schema for the deterministic violation matrix: one entity per (attribute kind, required/optional) as LAST attribute,
     plus a three-part complex family; every violation class is injected at every instance on every run."""
@@ -433,7 +455,7 @@ def matrix_cases(chk):
         chk.inconc('matrix schema library could not be built: %s' % str(lib.fail)[:300])
         return []
     rng = random.Random('c03-matrix')
-    pg = gen_p21.PopGen(s, rng, avoid=AVOID_POP | {'complex', 'array_optional_null'}, strs=['', 'a', "it''s"])
+    pg = gen_p21.PopGen(s, rng, avoid=AVOID_POP | {'complex', 'array_optional_null'}, strs=['', 'a', "it''s", 'p; q', "x;'';y", 'ENDSEC;'])
     pop = pg.population(n_extra=0, with_complex=False)
     # fill OPTIONAL last attributes with values too (so that every class applies) and add one complex instance
     insts = []
@@ -444,10 +466,22 @@ def matrix_cases(chk):
             if i.parts[0][1][j] == ('null',):
                 i.parts[0][1][j] = pg.value(a.type, i.id)
         insts.append(i)
+    # one simple instance carries a string that looks like the start of an instance (open finding: the resynchronisation after a
+    # violation takes such text for the next record); every class is injected into it like into the others
+    for i in insts:
+        if i.parts[0][0] == 'R_STR':
+            i.parts[0][1][1] = ('str', '#5=Z(1);')
+        if i.parts[0][0] == 'R_SEL':
+            i.parts[0][1][1] = ('typed', 'LABEL', ('str', '#5=Z(1);'))
     nid = max(i.id for i in insts) + 1
     insts.append(Inst(nid, [('CX', [('int', 1)]), ('CX1', [('real', 1.5, '1.5'), ('str', 's')]), ('CX2', [('enum', 'RED'), ('int', 4)]),
                             ('CX3', [('typed', 'LABEL', ('str', 'q')), ('enum', 'T')])], True))
     insts.append(Inst(nid + 1, [('TGT', [('int', 9)])]))
+    # a second complex instance whose strings contain `;` (open finding: after a violation in a part of a complex instance the
+    # reader looks for the end of the record without regard to strings) - mutated by every class like the first one
+    insts.append(Inst(nid + 2, [('CX', [('int', 2)]), ('CX1', [('real', 2.5, '2.5'), ('str', '#5=Z(1);')]), ('CX2', [('enum', 'GREEN'), ('int', 5)]),
+                                ('CX3', [('typed', 'LABEL', ('str', "x;'';y")), ('enum', 'F')])], True))
+    insts.append(Inst(nid + 3, [('TGT', [('int', 10)])]))
     pop = gen_p21.Population(s, insts)
     ok_ids = baseline_ok_ids(chk, lib, pop)
     if ok_ids is None:
@@ -469,8 +503,10 @@ def main(chk):
     for li, lib in enumerate(libs):
         for pi in range(n_pops):
             rng = random.Random('c03/%d/%s/%d' % (chk.seed, lib.schema.name, pi))
-            pg = gen_p21.PopGen(lib.schema, rng, avoid=AVOID_POP, strs=['', 'a', 'hello world', "it''s", 'x\\\\y'])
+            pg = gen_p21.PopGen(lib.schema, rng, avoid=AVOID_POP, strs=['', 'a', 'hello world', "it''s", 'x\\\\y', 'p; q', "x;'';y"])
             pop = pg.population(n_extra=rng.randint(1, 4), sparse=pi % 2 == 1, shuffle=False, with_complex=True)
+            if not os.environ.get('VERIF_C03_UNMASK'):
+                _no_semicolon_strings_in_complex(pop)
             if 'unfillable' in pop.tags:
                 continue
             ok_ids = baseline_ok_ids(chk, lib, pop)
